@@ -234,7 +234,7 @@ func (ex *Exec) sliceLiteral(st *State, ty types.Type, vs []Val) Val {
 		return Val{T: ex.w.zero(s), S: s, Go: ty}
 	}
 	arr := ex.newArr(st, "varargs")
-	row := fmt.Sprintf("((as const (Array Int %s)) %s)", es.Name, ex.w.zero(es))
+	row := ex.zeroRow(es)
 	for i, v := range vs {
 		row = sStore(row, fmt.Sprint(i), v.T)
 	}
